@@ -17,10 +17,9 @@ Proof. exact binop_length. Qed.
 Print Assumptions C05_binop_length.
 
 (* Element i is what Python computes for the i-th operands in the written order (None if
-   either is None) — for all 14 dunders except __rmul__ (see below), for a vector, a plain
-   sequence or a scalar on the other side. *)
+   either is None) — for all 14 dunders, for a vector, a plain sequence or a scalar on the
+   other side. *)
 Theorem C05_binop_nth : forall val (scal : bop -> val -> val -> sres val) d xs other l,
-  d <> Refl Mul ->
   vec_dunder scal d xs other = Ok l ->
   length l = length xs /\
   forall i, i < length xs ->
@@ -31,7 +30,6 @@ Print Assumptions C05_binop_nth.
 (* ... and whenever Python defines the scalar operation at every position and the lengths
    agree, the operation does return such a vector (no spurious error). *)
 Theorem C05_binop_total : forall val (scal : bop -> val -> val -> sres val) d xs other,
-  d <> Refl Mul ->
   operand_fits (length xs) other ->
   defined_everywhere scal d xs other ->
   exists l, vec_dunder scal d xs other = Ok l /\ elementwise_result scal d xs other l.
@@ -48,7 +46,6 @@ Print Assumptions C05_binop_len_mismatch_is_error.
 
 (* Reflected forms compute  s <o> x : the scalar stands on the left ... *)
 Theorem C05_rbinop_operand_order : forall val (scal : bop -> val -> val -> sres val) o xs s l,
-  o <> Mul ->
   vec_dunder scal (Refl o) xs (OScalar s) = Ok l ->
   length l = length xs /\
   forall i, i < length xs ->
@@ -61,47 +58,31 @@ Print Assumptions C05_rbinop_operand_order.
 
 (* ... and so does the sequence element for  [..] <o> v . *)
 Theorem C05_rbinop_operand_order_seq : forall val (scal : bop -> val -> val -> sres val) o xs ys l,
-  o <> Mul ->
   vec_dunder scal (Refl o) xs (OSeq ys) = Ok l ->
   length l = length xs /\
   forall i, i < length xs -> lift2 (scal o) (nth i ys None) (nth i xs None) = SOk (nth i l None).
 Proof. exact rbinop_operand_order_seq. Qed.
 Print Assumptions C05_rbinop_operand_order_seq.
 
-(* The dispatch table (data in Model/Elementwise.v): every dunder has a row; every row passes
-   a function that is the written operand order — each __rX__ is X with operands swapped —
-   except the row of __rmul__, and __radd__, which has its own body (covered by C05_binop_nth). *)
+(* The dispatch table (data in Model/Elementwise.v): every dunder has a row, and every row
+   passes a function that is the written operand order — each __rX__ is X with the operands
+   swapped, __rmul__ included; __radd__ has its own body (covered by C05_binop_nth). *)
 Theorem C05_dispatch_table_sound : forall val (scal : bop -> val -> val -> sres val) d,
   match lookup_route dispatch_table d with
-  | Some (ViaElementwise g) =>
-      d = Refl Mul \/ forall x y, apply_opfunc scal g x y = written scal d x y
+  | Some (ViaElementwise g) => forall x y, apply_opfunc scal g x y = written scal d x y
   | Some OwnRadd => d = Refl Add
   | None => False
   end.
 Proof. exact dispatch_table_sound. Qed.
 Print Assumptions C05_dispatch_table_sound.
 
-(* __rmul__ returns self.__mul__(other): it computes x * s, which is the written order s * x
-   exactly when Python's * commutes on the operands (true of every builtin numeric type and of
-   str/bytes/list * int) ... *)
-Theorem C05_rmul_commutative : forall val (scal : bop -> val -> val -> sres val) xs other l,
-  (forall a b, scal Mul a b = scal Mul b a) ->
-  vec_dunder scal (Refl Mul) xs other = Ok l -> elementwise_result scal (Refl Mul) xs other l.
-Proof. exact rmul_commutative. Qed.
-Print Assumptions C05_rmul_commutative.
-
-(* ... and NOT in general: the full-strength statement for __rmul__ is refuted on the faithful
-   model (a witness with a non-commutative multiplication).  Reported as finding NEW-C05-1. *)
-Definition C05_rmul_written_order_statement : Prop :=
-  forall val (scal : bop -> val -> val -> sres val) xs s l,
-    vec_dunder scal (Refl Mul) xs (OScalar s) = Ok l ->
-    elementwise_result scal (Refl Mul) xs (OScalar s) l.
-Theorem C05_rmul_written_order_refuted :
-  exists (scal : bop -> bool -> bool -> sres bool) xs s l,
-    vec_dunder scal (Refl Mul) xs (OScalar s) = Ok l /\
-    ~ elementwise_result scal (Refl Mul) xs (OScalar s) l.
-Proof. exact rmul_written_order_refuted. Qed.
-Print Assumptions C05_rmul_written_order_refuted.
+(* In particular  s * v  computes s * x even when Python's * does not commute on the operands
+   (finding NEW-C05-1 of this check, repaired by /repo 4e17276; regress/F31.patch). *)
+Theorem C05_rmul_written_order : forall val (scal : bop -> val -> val -> sres val) xs s l,
+  vec_dunder scal (Refl Mul) xs (OScalar s) = Ok l ->
+  elementwise_result scal (Refl Mul) xs (OScalar s) l.
+Proof. exact rmul_written_order. Qed.
+Print Assumptions C05_rmul_written_order.
 
 (* Unary -, +, abs: element i is the operator applied to element i, None staying None;
    defined everywhere => a result. *)
@@ -232,6 +213,9 @@ Example C05_example_operand_order :
   table_operation ex_scal Add [[Some 1; None]; [Some 3; Some 4]] (TOther (OScalar 10))
     = TOk [Ok [Some 11; None]; Ok [Some 13; Some 14]] /\
   table_operation ex_scal Add [[Some 1]; [Some 3]] (TTable [[Some 1]]) = TErr /\
+  vec_dunder left_biased (Refl Mul) [Some true; None] (OScalar false) = Ok [Some false; None] /\
+  vec_dunder left_biased (Plain Mul) [Some true; None] (OScalar false) = Ok [Some true; None] /\
   date_add [Some 737425%Z; None] (DInt 31) = DOk [Some 737456%Z; None] /\
+  date_add [] (DVec None []) = DSuper /\
   date_add [Some 3652059%Z] (DInt 1) = DErrRaise.
 Proof. vm_compute. repeat split. Qed.
